@@ -603,7 +603,7 @@ impl Transformer {
     ) -> Result<()> {
         let mut new_svg_attrs = AttrMap::new();
         let mut orig_svg_attrs = HashMap::new();
-        if let OutputEvent::Start(orig_svg) = first_svg {
+        if let OutputEvent::Start(orig_svg) | OutputEvent::Empty(orig_svg) = first_svg {
             new_svg_attrs = orig_svg.attrs.clone();
             orig_svg_attrs = orig_svg.get_attrs();
         }
@@ -756,8 +756,12 @@ impl Transformer {
         }
 
         let mut has_svg_element = false;
+        // An empty root (`<svg/>`) is written as start + end so that the generated
+        // content can go inside it.
+        let mut close_root = false;
         if let (pre_svg, Some(first_svg), remain) = events.partition("svg") {
             pre_svg.write_to(writer)?;
+            close_root = matches!(first_svg, OutputEvent::Empty(_));
             self.write_root_svg(first_svg, bbox, writer)?;
             events = remain;
             has_svg_element = true;
@@ -785,6 +789,9 @@ impl Transformer {
             self.write_auto_styles(&mut events, writer)?;
         }
 
+        if close_root {
+            events.push(OutputEvent::End("svg".to_owned()));
+        }
         events.write_to(writer)
     }
 }
